@@ -280,6 +280,41 @@ def transformSeq (ign : Bool) (p : TPath) : List Val → Out (List Val)
     | .panic x => .panic x
 end
 
+
+/-! ### collect mode (DESIGN §2.6): every failure some map iteration order can report first -/
+
+def outFails {α : Type} : Out α → List String
+  | .ok _ => []
+  | .err e => ["err:" ++ e]
+  | .panic s => ["panic:" ++ s]
+
+mutual
+def fails (ign : Bool) (p : TPath) : Val → List String
+  | .map m =>
+    if recursesOnMap (TPath.firstMatch CV.Gen.transformers p) then
+      match failsKVs ign p m with
+      | [] => outFails (bindOut (transformKVs ign p m) (postMap (TPath.firstMatch CV.Gen.transformers p)))
+      | fs => fs
+    else outFails (leaf (TPath.firstMatch CV.Gen.transformers p) ign (.map m))
+  | .seq l =>
+    if TPath.firstMatch CV.Gen.transformers p = none then failsSeq ign p l
+    else outFails (leaf (TPath.firstMatch CV.Gen.transformers p) ign (.seq l))
+  | .null => outFails (leaf (TPath.firstMatch CV.Gen.transformers p) ign .null)
+  | .bool b => outFails (leaf (TPath.firstMatch CV.Gen.transformers p) ign (.bool b))
+  | .int i => outFails (leaf (TPath.firstMatch CV.Gen.transformers p) ign (.int i))
+  | .float f => outFails (leaf (TPath.firstMatch CV.Gen.transformers p) ign (.float f))
+  | .str s => outFails (leaf (TPath.firstMatch CV.Gen.transformers p) ign (.str s))
+def failsKVs (ign : Bool) (p : TPath) : Val.KVs → List String
+  | [] => []
+  | (k, e) :: r => fails ign (TPath.next p k) e ++ failsKVs ign p r
+/-- a sequence is walked in index order: only the first failing element can be reported -/
+def failsSeq (ign : Bool) (p : TPath) : List Val → List String
+  | [] => []
+  | e :: r => match fails ign (TPath.next p "[]") e with
+    | [] => failsSeq ign p r
+    | fs => fs
+end
+
 /-- `transform.Canonical` -/
 def canonical (ign : Bool) (v : Val) : Out Val := transform ign TPath.root v
 
